@@ -169,15 +169,9 @@ def run(ctx):
     # ---- E1 -----------------------------------------------------------------
     acts = ["NFsWrite", "NFsDelete", "NFsMove", "NEvCreated", "NEvModified", "NEvDeleted", "NEvMoved",
             "NAddBatch", "NModifyBatch", "NRemoveBatch", "Rescan", "Verify"]
-    ctx.model_check("MCRingbuffer", "MCRingbuffer_quick.cfg" if q else "MCRingbuffer_thorough.cfg", required_actions=acts)
-    ctx.model_check(
-        "MCRingbuffer",
-        "MCRingbuffer_witness.cfg",
-        expect_violated=("W_NeverDeletes",),
-        coverage=False,
-    )
-    for w in ("W_NeverTwoDeletions", "W_NeverCrossGroup", "W_NeverStaleRecord", "W_NeverMisSized"):
-        ctx.model_check("MCRingbuffer", "MCRingbuffer_%s.cfg" % w, expect_violated=(w,), coverage=False, tag=w)
+    ctx.model_check("MCRingbuffer", "MCRingbuffer_quick.cfg" if q else "MCRingbuffer_thorough.cfg", coverage=False, timeout=7200)
+    ctx.model_check("MCRingbuffer", "MCRingbuffer_cov.cfg", required_actions=acts, tag="cov")
+    ctx.witnesses("MCRingbuffer", "MCRingbuffer_W_%s.cfg", ["NeverDeletes", "NeverTwoDeletions", "NeverCrossGroup", "NeverStaleRecord", "NeverMisSized"])
 
     # ---- stage the implementation ----------------------------------------------
     ctx.stage()
@@ -198,6 +192,32 @@ def run(ctx):
         initial = [(9, 64), (10, 64), (11, 64), (12, 64)]
         scen.append(drv.run_history(digital_rf, os.path.join(ctx.work, "rb", "t"), files, BASE_MS, limits, initial, hist, "sim%d" % i))
     nsim = len(scen)
+    # ---- E2 (exhaustive): breadth-first exploration of the IMPLEMENTATION over the quick universe U2, every
+    # (reached state, action) pair executed once on the real handler and judged by TLC as a one-step trace
+    nexh = 0
+    reached = 0
+    u2files = [dict(ch="chA", kind="rf", t_ms=BASE_MS + 1000), dict(ch="chA", kind="rf", t_ms=BASE_MS + 3000),
+               dict(ch="chB", kind="rf", t_ms=BASE_MS + 1000), dict(ch="chB", kind="rf", t_ms=BASE_MS + 2000),
+               dict(ch="chA", kind="tmp", t_ms=BASE_MS + 2000),
+               dict(ch="chA", kind="drfprop"), dict(ch="chB", kind="drfprop")]
+    data = [1, 2, 3, 4]
+    acts = []
+    for f in [1, 2, 3, 4, 5]:
+        acts += [dict(a="FsWrite", f=f, sz=100), dict(a="FsWrite", f=f, sz=200), dict(a="FsDelete", f=f),
+                 dict(a="EvCreated", f=f), dict(a="EvModified", f=f), dict(a="EvDeleted", f=f)]
+    acts += [dict(a="FsMove", f=f, g=g) for f in data for g in data if f != g and (f <= 2) == (g <= 2)]
+    acts += [dict(a="FsMove", f=5, g=1), dict(a="EvMoved", f=5, g=1), dict(a="EvMoved", f=5, g=2)]
+    acts += [dict(a="EvMoved", f=f, g=g) for f in data for g in data if f != g and (f <= 2) == (g <= 2)]
+    for S in [[1], [2], [3], [1, 2], [1, 3], [2, 4], [3, 4], [1, 2, 3, 4]]:
+        acts += [dict(a="AddBatch", S=S), dict(a="ModifyBatch", S=S), dict(a="RemoveBatch", S=S)]
+    acts += [dict(a="Rescan"), dict(a="Verify")]
+    for lim in [dict(count=2), dict(duration=1000), dict(size=400), dict(count=2, duration=2000, size=500)]:
+        sc, ns = drv.explore(digital_rf, os.path.join(ctx.work, "rb", "x"), u2files, BASE_MS, lim, [(6, 64), (7, 64)], acts,
+                             depth=ctx.pick(2, 4), max_states=ctx.pick(150, 4000), name="bfs")
+        scen += sc
+        nexh += len(sc)
+        reached += ns
+    ctx.extra.update(exhaustive_transitions_on_implementation=nexh, implementation_states_reached=reached)
     # ---- E3: random real-scale histories ---------------------------------------------
     nrand = ctx.pick(250, 6000)
     for i in range(nrand):
@@ -214,5 +234,5 @@ def run(ctx):
     )
     ctx.sample({k: scen[0][k] for k in ("name", "cfg", "limits")} | {"events": scen[0]["events"][:6]})
     if nrand:
-        ctx.sample({k: scen[nsim][k] for k in ("name", "cfg", "limits")} | {"events": scen[nsim]["events"][:6]})
+        ctx.sample({k: scen[-1][k] for k in ("name", "cfg", "limits")} | {"events": scen[-1]["events"][:6]})
     ctx.validate("RingbufferTrace", "RingbufferTrace.cfg", scen, label="ringbuffer history")
